@@ -303,7 +303,15 @@ func (g *gen) conflictFree(nyct, alerts bool) *gtfsrt.FeedMessage {
 	// (absent / another day) or in the schedule relationship: the identifier order must still separate them
 	if nTrips > 0 && !nyct && g.coin(0.35) {
 		base := trips[g.r.Intn(len(trips))].td
-		seen := map[string]bool{base.GetStartDate() + "|" + base.GetScheduleRelationship().String(): true}
+		distinct := func(td *gtfsrt.TripDescriptor) bool { // by the PARSED identifier: an unparseable date lexeme is "no date"
+			k := wantTripID(td, nil)
+			for _, t := range trips {
+				if sameTripID(wantTripID(t.td, nil), k) {
+					return false
+				}
+			}
+			return true
+		}
 		for k := 1 + g.r.Intn(3); k > 0; k-- {
 			sib := proto.Clone(base).(*gtfsrt.TripDescriptor)
 			switch g.r.Intn(3) {
@@ -314,12 +322,8 @@ func (g *gen) conflictFree(nyct, alerts bool) *gtfsrt.FeedMessage {
 			default:
 				sib.ScheduleRelationship = gtfsrt.TripDescriptor_ScheduleRelationship(g.r.Intn(4)).Enum()
 			}
-			key := sib.GetStartDate() + "|" + sib.GetScheduleRelationship().String()
-			if sib.StartDate == nil && base.StartDate != nil || sib.StartDate != nil {
-				if !seen[key] {
-					seen[key] = true
-					trips = append(trips, &tripPlan{td: sib, veh: -1})
-				}
+			if distinct(sib) {
+				trips = append(trips, &tripPlan{td: sib, veh: -1})
 			}
 		}
 	}
